@@ -155,6 +155,7 @@ func (s *Stream) UnreadByte() error {
 // ReadRune reads the next rune from the underlying source.
 // It throws an error if the stream is not an input text stream.
 func (s *Stream) ReadRune() (r rune, size int, err error) {
+	s.lastRuneSize = 0
 	if err := s.initRead(); err != nil {
 		return 0, 0, err
 	}
@@ -166,11 +167,21 @@ func (s *Stream) ReadRune() (r rune, size int, err error) {
 	r, n, err := s.buf.ReadRune()
 	s.position += int64(n)
 	s.lastRuneSize = n
+	if errors.Is(err, io.EOF) {
+		s.lastRuneSize = -1 // This read hit the end of stream. It can be unread.
+	}
 	s.checkEOS(err)
 	return r, n, err
 }
 
 func (s *Stream) UnreadRune() error {
+	if s.lastRuneSize < 0 {
+		// The last read hit the end of stream. There's nothing to unread but the end of stream itself.
+		s.lastRuneSize = 0
+		s.endOfStream = endOfStreamAt
+		return nil
+	}
+
 	if err := s.initRead(); err != nil {
 		return err
 	}
